@@ -187,6 +187,11 @@ def composite_codec_encode_into_pdu(codec: CompositeCodec, physical_value: Optio
         # Encode the value of the key parameter into the message
         param.encode_value_into_pdu(encode_state=encode_state)
 
+        # the value of the key only applies to this instance of the
+        # composite object (e.g., to the current item of a field)
+        encode_state.length_keys.pop(param.short_name, None)
+        encode_state.table_keys.pop(param.short_name, None)
+
     # the next object is located after the last parameter, not after
     # the key which has been encoded last
     encode_state.cursor_byte_position = orig_cursor
